@@ -126,3 +126,25 @@ func loopOf(h *ssa.BasicBlock) map[*ssa.BasicBlock]bool {
 	}
 	return loop
 }
+
+// Helpers: fn together with the library functions and closures it (transitively) calls: the scope a
+// rule about "what fn does" has to look at, so that extracting part of fn into a helper does not
+// hide it.
+func (p *Prog) Helpers(fn *ssa.Function) []*ssa.Function {
+	var out []*ssa.Function
+	for _, f := range p.Closure([]*ssa.Function{fn}) {
+		if fnPkg(f) == p.LibSSA || fnPkg(f) == p.CLISSA {
+			out = append(out, f)
+		}
+	}
+	return out
+}
+
+// helperBlocks: all blocks of Helpers(fn).
+func (p *Prog) helperBlocks(fn *ssa.Function) []*ssa.BasicBlock {
+	var out []*ssa.BasicBlock
+	for _, f := range p.Helpers(fn) {
+		out = append(out, f.Blocks...)
+	}
+	return out
+}
